@@ -383,6 +383,16 @@ struct UtfSim
             if (cnt != k || stop != pos) okk = c.fail("length-counter-wrong", "a_utf_len", "string of %zu bytes (buffer holds %zu stale bytes more): counted %zu / stopped at %zu, stepping the decoder over the content gives %zu / %zu", keep, take - keep, (size_t)cnt, (size_t)stop, k, pos);
         }
         a_str_dtor(&sobj);
+        if (okk)
+        { // the string object's encoder front end: appending the code points one by one reproduces the wire bytes, terminated
+            a_str enc; a_str_ctor(&enc);
+            size_t upto = cps.empty() ? 0 : (size_t)(v1 % (cps.size() + 1)), bytes = 0;
+            for (size_t i = 0; i < upto && okk; ++i) { c.site("a_utf_catc"); if (a_utf_catc(&enc, cps[i]) != 0) okk = c.fail("unexpected-failure", "a_utf_catc", "append of U+%X failed", cps[i]); bytes += ref_len(cps[i]); }
+            if (okk && (a_str_len(&enc) != bytes || (bytes && memcmp(a_str_ptr(&enc), wire.data(), bytes) != 0) || (upto && a_str_ptr(&enc)[bytes] != 0)))
+                okk = c.fail("encoded-bytes-wrong", "a_utf_catc", "appending %zu code points to a string gives %zu bytes, the encoder stream has %zu (or the bytes / terminator differ)", upto, a_str_len(&enc), bytes);
+            if (okk && upto) { a_size st = 0; a_size n = a_utf_len(&enc, &st); if (n != upto || st != bytes) okk = c.fail("length-counter-wrong", "a_utf_len", "%zu code points appended, counter says %zu / %zu bytes of %zu", upto, (size_t)n, (size_t)st, bytes); }
+            a_str_dtor(&enc);
+        }
         ++c.steps;
         c.st.add("probe.string_object_counter");
         return okk;
